@@ -229,6 +229,9 @@ func GenGenuine(r *rand.Rand, w *World, o GenOpts) *Genuine {
 	}
 	if g.Place != "assert" {
 		rec.Sig = randSigSpec(r, g.Signer, true, false)
+		if r.IntN(10) == 0 {
+			rec.Sig.RefURI = sim.S("") // a same-document reference to the whole document, legitimate for the root element
+		}
 	}
 	g.Rec = rec
 	g.Style = sim.RandomStyle(r)
